@@ -53,9 +53,22 @@ CFG = "list (list str * list str) * list (nat * fmtspec)"
 TREE_TYPE = CFG + " * oforest"
 PATH_TYPE = CFG + " * list (wop * (%s))" % WOBS
 
-# the three classes of the quantifier: (code of _class_hash, object identity).  K1 and K1b are two distinct
-# class objects with the same import path, hence the same _class_hash: for the library they are THE SAME CLASS.
-CLASS_CODES = [(0, 0), (1, 1), (1, 2)]
+# Classes.  A FAMILY is the three classes of the quantifier: K0, K1 and K1b, where K1 and K1b are two distinct class objects
+# with the same import path (module + qualname) - for the library THE SAME CLASS - and K0 has another import path.  Class
+# number 3*f + role (role 0 = K0, 1 = K1, 2 = K1b) of family f:
+#   family 0  direct subclasses of Component;
+#   family 1  two siblings (and the twin) under a common base component:  Base(Component); K0(Base), K1(Base), K1b(Base);
+#   family 2  a chain: Base(Component); K0(Base); K1(K0), K1b(K0)  (K1 is a grandchild of Base and a SUBCLASS of K0).
+# Model code of a class = (code of its import path, object identity): distinct import paths MUST be distinct classes for the
+# registry whatever the inheritance between them (class_identity_failures() checks `_class_hash` against this directly).
+NFAM = 3
+CLASS_CODES = [(2 * f + (0 if r == 0 else 1), 3 * f + r) for f in range(NFAM) for r in range(3)]
+
+
+def fam(f):
+    return (3 * f, 3 * f + 1, 3 * f + 2)
+
+
 BUILTINS = ["slot", "fill", "component"]           # tags already in the private Library when the registry gets it
 ERR = {"AlreadyRegistered": "EAlreadyRegistered", "NotRegistered": "ENotRegistered", "ValueError": "EValueError",
        "TagProtectedError": "ETagProtected", "KeyError": "EKeyError"}
@@ -72,7 +85,10 @@ ERR = {"AlreadyRegistered": "EAlreadyRegistered", "NotRegistered": "ENotRegister
 # is systematically left out.  That the implementation does not tell the members of an orbit apart is not assumed
 # for the shorter bound, where ALL histories are run.
 SYM_NAMES = ("slot", "fill")
-SYM_CLASSES = (1, 2)
+SYM_CLASSES = {}                       # K1 <-> K1b of every family
+for _f in range(NFAM):
+    SYM_CLASSES[3 * _f + 1] = 3 * _f + 2
+    SYM_CLASSES[3 * _f + 2] = 3 * _f + 1
 
 _state = {}
 
@@ -80,13 +96,37 @@ _state = {}
 def classes():
     if "classes" not in _state:
         from django_components import Component
-        k0 = type("C15K0", (Component,), {"template": "", "__module__": "verif_c15_mod"})
-        k1 = type("C15K1", (Component,), {"template": "", "__module__": "verif_c15_mod"})
-        k1b = type("C15K1", (Component,), {"template": "", "__module__": "verif_c15_mod"})
-        assert k1._class_hash == k1b._class_hash != k0._class_hash and k1 is not k1b
-        _state["classes"] = [k0, k1, k1b]
-        _state["clsidx"] = {id(k): i for i, k in enumerate(_state["classes"])}
+        mk = lambda name, base: type(name, (base,), {"template": "", "__module__": "verif_c15_mod"})   # noqa: E731
+        sbase, gbase = mk("C15SBase", Component), mk("C15GBase", Component)
+        g0 = mk("C15G0", gbase)
+        ks = [mk("C15K0", Component), mk("C15K1", Component), mk("C15K1", Component),
+              mk("C15S0", sbase), mk("C15S1", sbase), mk("C15S1", sbase),
+              g0, mk("C15G1", g0), mk("C15G1", g0)]
+        _state["classes"] = ks
+        _state["bases"] = [sbase, gbase]
+        _state["clsidx"] = {id(k): i for i, k in enumerate(ks)}
     return _state["classes"]
+
+
+def import_path(cls):
+    return cls.__module__ + "." + cls.__qualname__
+
+
+def class_identity_failures():
+    """`_class_hash` must identify a class with its import path: equal for the two objects K1 / K1b of a family, different for
+    any two classes with different import paths - siblings, parent and child, base and grandchild included."""
+    ks = classes() + _state["bases"]
+    out = []
+    for a in range(len(ks)):
+        for b in range(a + 1, len(ks)):
+            same_path = import_path(ks[a]) == import_path(ks[b])
+            ha, hb = getattr(ks[a], "_class_hash", None), getattr(ks[b], "_class_hash", None)
+            if ha is None or hb is None or (ha == hb) != same_path:
+                out.append("%s (bases %s, _class_hash %r) and %s (bases %s, _class_hash %r): import paths %s, hashes %s" % (
+                    import_path(ks[a]), [x.__qualname__ for x in ks[a].__bases__], ha,
+                    import_path(ks[b]), [x.__qualname__ for x in ks[b].__bases__], hb,
+                    "equal" if same_path else "differ", "equal" if ha == hb else "differ"))
+    return out
 
 
 def cls_index(obj):
@@ -641,7 +681,7 @@ def g_apply(g, op):
     if sn and len(o) > 1 and o[1] in SYM_NAMES:
         o = (o[0], SYM_NAMES[1 - SYM_NAMES.index(o[1])]) + tuple(o[2:])
     if sk and o[0] == "register" and o[2] in SYM_CLASSES:
-        o = (o[0], o[1], SYM_CLASSES[1 - SYM_CLASSES.index(o[2])])
+        o = (o[0], o[1], SYM_CLASSES[o[2]])
     return (i, o)
 
 
@@ -654,7 +694,7 @@ def canon_child(op, seen, names_sym=True):
             return None
         sn = True
     if o[0] == "register" and o[2] in SYM_CLASSES:
-        if not sk and o[2] == SYM_CLASSES[1]:
+        if not sk and o[2] % 3 == 2:            # K1b before K1
             return None
         sk = True
     return (sn, sk)
@@ -798,16 +838,18 @@ SHARED = ([(BUILTINS, "default")], [(0, ("shorthand", "instance")), (0, ("compon
 
 def tree_jobs(thorough):
     """groups of jobs; a group is walked and evaluated in Coq before the next one starts (bounded memory)"""
-    alpha = alphabet(NAMES3)
     singles = list(single_configs())
     groups = []
+    # the class family of a configuration: direct subclasses / siblings under a base component / parent-child chain
+    A = [alphabet(NAMES3, classes=fam(f)) for f in range(NFAM)]
     # 1. one registry, default / shorthand formatter x without / with protected tags: ALL histories
     Lfull = 5 if thorough else 4
-    groups.append(("one-exh%d" % Lfull, [make_job(ls, rs, alpha, Lfull, "one-exh%d" % Lfull) for ls, rs in singles]))
+    groups.append(("one-exh%d" % Lfull, [make_job(ls, rs, A[(0, 1, 2, 1)[ci]], Lfull, "one-exh%d" % Lfull)
+                                         for ci, (ls, rs) in enumerate(singles)]))
     # 2. ... and one history per orbit for the next length(s)
     #    (quick: shorthand formatter + protected tags; thorough: also default formatter + unprotected)
     Lo = 6 if thorough else 5
-    groups.append(("one-orbit%d" % Lo, [make_job(ls, rs, alpha, Lo, "one-orbit%d" % Lo, orbit=True)
+    groups.append(("one-orbit%d" % Lo, [make_job(ls, rs, A[2 if ci == 3 else 0], Lo, "one-orbit%d" % Lo, orbit=True)
                                         for ci, (ls, rs) in enumerate(singles) if ci == 3 or (thorough and ci == 0)]))
     # 3. other formatters / protection lists / names, one registry
     Lx = 4 if thorough else 3
@@ -822,25 +864,26 @@ def tree_jobs(thorough):
              ([(BUILTINS, ["fill"])], [(0, ("shorthand", "instance"))], ["component", "slot", "fill"]),
              # a protected tag that is NOT in the library (must never be created), next to one that is
              ([(["component", "slot"], "default")], [(0, ("shorthand", "instance"))], ["a", "slot", "provide"])]
-    groups.append(("one-extra-exh%d" % Lx, [make_job(ls, rs, alphabet(ns), Lx, "one-extra-exh%d" % Lx) for ls, rs, ns in extra]))
+    groups.append(("one-extra-exh%d" % Lx, [make_job(ls, rs, alphabet(ns, classes=fam(xi % NFAM)), Lx, "one-extra-exh%d" % Lx)
+                                             for xi, (ls, rs, ns) in enumerate(extra)]))
     # 4. two registries on two private libraries: all interleavings of length 3; length 4: over 2 names, one per orbit of K1<->K1b
     #    (quick) / over 3 names, one per orbit of G, both configurations (thorough)
-    alpha2 = alphabet(NAMES3, 2)
-    groups.append(("two-private-exh3", [make_job(ls, rs, alpha2, 3, "two-private-exh3") for ls, rs in TWO]))
+    A2 = [alphabet(NAMES3, 2, classes=fam(f)) for f in range(NFAM)]
+    groups.append(("two-private-exh3", [make_job(ls, rs, A2[ti + 1], 3, "two-private-exh3") for ti, (ls, rs) in enumerate(TWO)]))
     if thorough:
-        groups.append(("two-private-orbit4", [make_job(ls, rs, alpha2, 4, "two-private-orbit4", orbit=True) for ls, rs in TWO]))
+        groups.append(("two-private-orbit4", [make_job(ls, rs, A2[2 - ti], 4, "two-private-orbit4", orbit=True) for ti, (ls, rs) in enumerate(TWO)]))
     else:
-        groups.append(("two-private-2names-orbit4", [make_job(TWO[0][0], TWO[0][1], alphabet(["a", "slot"], 2), 4, "two-private-2names-orbit4",
+        groups.append(("two-private-2names-orbit4", [make_job(TWO[0][0], TWO[0][1], alphabet(["a", "slot"], 2, classes=fam(1)), 4, "two-private-2names-orbit4",
                                                               orbit=True, names_sym=False)]))
     # 5. mark_protected_tags as a CALL of the history (the protected list of a Library changes after the registry has been used):
     #    shorthand formatter (tag == name) on a Library that starts unprotected ("protect later") / with ["fill"] ("protect more"),
     #    default formatter (protecting `component` while components use it = not disciplined: reported, never an alarm)
     Lp = 5 if thorough else 4
-    ap = alphabet(NAMES3, classes=(0, 1), protects=[(), "default", ("fill",), ("a",)], get=False)
-    apc = alphabet(["a", "slot"], classes=(0, 1), protects=[(), "default", ("component",)], get=False) + [(0, ("get", "a"))]
+    ap = [alphabet(NAMES3, classes=fam(f)[:2], protects=[(), "default", ("fill",), ("a",)], get=False) for f in range(NFAM)]
+    apc = alphabet(["a", "slot"], classes=fam(2)[:2], protects=[(), "default", ("component",)], get=False) + [(0, ("get", "a"))]
     groups.append(("one-protect-exh%d" % Lp, [
-        make_job([(BUILTINS, None)], [(0, ("shorthand", "instance"))], ap, Lp, "one-protect-exh%d" % Lp),
-        make_job([(BUILTINS, ["fill"])], [(0, ("shorthand", "instance"))], ap, Lp, "one-protect-exh%d" % Lp),
+        make_job([(BUILTINS, None)], [(0, ("shorthand", "instance"))], ap[0], Lp, "one-protect-exh%d" % Lp),
+        make_job([(BUILTINS, ["fill"])], [(0, ("shorthand", "instance"))], ap[1], Lp, "one-protect-exh%d" % Lp),
         make_job([(BUILTINS, None)], [(0, ("component", "default"))], apc, Lp, "one-protect-exh%d" % Lp)]))
     # 6. OUTSIDE the claimed domain (diagnostic only): two registries sharing one library
     groups.append(("two-shared-diagnostic", [make_job(SHARED[0], SHARED[1], alphabet(["a", "slot"], 2), 3, "two-shared-diagnostic", claimed=False)]))
@@ -863,6 +906,8 @@ def random_cases(chk, thorough):
         order = list(range(nreg))
         rng.shuffle(order)
         rs = [(order[i], f) for i, (_, f) in enumerate(rs)]
+        # classes: one family, or classes of all families mixed (siblings, parent and child, unrelated ones under one name)
+        pool = list(fam(rng.randrange(NFAM))) if rng.random() < 0.6 else rng.sample(range(3 * NFAM), rng.randint(3, 6))
         ops = []
         for _ in range(rng.randint(7, 40)):
             i = rng.randrange(nreg)
@@ -873,7 +918,7 @@ def random_cases(chk, thorough):
                 ops.append((i, ("protect", rng.choice(["default", "default", (), tuple(rng.sample(names, rng.randint(1, 2))),
                                                        ("fill", "slot"), ("component",), ("x-a", "b")]))))
             elif kind == "register":
-                ops.append((i, ("register", rng.choice(names), rng.randrange(3))))
+                ops.append((i, ("register", rng.choice(names), rng.choice(pool))))
             else:
                 ops.append((i, (kind, rng.choice(names))))
         yield ls, rs, ops, "random-private", True
@@ -968,7 +1013,16 @@ def corpus_cases():
         ([(BUILTINS + ["class"], ["class"])], [(0, ("shorthand", "instance"))],
          [(0, (R, "class", 0)), (0, (R, "é", 0)), (0, (R, "a×b", 0)), (0, (R, "None", 1)), (0, (U, "é")), (0, ("all",))]),
     ]
-    out = [(ls, rs, ops, "corpus") for ls, rs, ops in lit]
+    # every literal history with the classes of every family (k -> 3 f + k), and the shortest witnesses of seed C15d
+    out = []
+    for f in range(NFAM):
+        for ls, rs, ops in lit:
+            out.append((ls, rs, [(i, (o[0], o[1], 3 * f + o[2]) if o[0] == R else o) for i, o in ops], "corpus"))
+    sh = [(0, ("shorthand", "instance"))]
+    out += [([([], None)], sh, [(0, (R, "n", 3)), (0, (R, "n", 4)), (0, (G, "n")), (0, ("all",))], "corpus"),      # siblings
+            ([([], None)], sh, [(0, (R, "n", 6)), (0, (R, "n", 7)), (0, (G, "n"))], "corpus"),                     # parent, then its subclass
+            ([([], None)], sh, [(0, (R, "n", 7)), (0, (R, "n", 6)), (0, (R, "n", 8)), (0, (G, "n"))], "corpus"),   # subclass, then parent
+            ([([], None)], sh, [(0, (R, "n", 4)), (0, (R, "n", 0)), (0, (R, "n", 7)), (0, (R, "n", 5)), (0, (G, "n"))], "corpus")]
     for p in sorted(glob.glob(os.path.join(C.VERIF, "corpus", "C15", "*.json"))):
         j = json.load(open(p))
         out.append(([(b, tuple(pr) if isinstance(pr, list) else pr) for b, pr in j["libs"]],
@@ -1022,6 +1076,19 @@ def run(tier, seed):
             return
         chk.disagree("Registry model != ComponentRegistry/Library (results, contents or tag tables) - " + where,
                      replay_obj(ls, rs, ops, {"kind": "history", "impl": repr(run_case(ls, rs, ops)[0])[:1500]}))
+
+    # ---- class identity: `_class_hash` = the import path, whatever the inheritance between the classes ----
+    cif = class_identity_failures()
+    chk.count(("class-identity", NFAM), False, kind="class_identity")
+    chk.extra["class_families"] = {
+        "families": {"0": "direct subclasses of Component", "1": "siblings under a common base component",
+                     "2": "chain: base component, its child K0, K0's children K1/K1b"},
+        "classes": [{"class": k, "import_path": import_path(c), "bases": [b.__qualname__ for b in c.__bases__],
+                     "_class_hash": getattr(c, "_class_hash", None)} for k, c in enumerate(classes())],
+        "hash_identifies_import_path": not cif}
+    if cif:
+        chk.fail("c15-class-identity", "_class_hash does not identify a class with its import path: " + "; ".join(cif[:3]),
+                 {"kind": "class-identity", "pairs": cif[:10]})
 
     # ---- corpus first ----
     for ls, rs, ops, kind in corpus_cases():
@@ -1214,8 +1281,12 @@ def run(tier, seed):
     chk.extra["cpu_seconds"] = {"main_process": round(tm.user + tm.system, 1), "workers_and_coqc": round(tm.children_user + tm.children_system, 1),
                                 "jobs": C.NCPU}
     return chk.finish(
-        rule="Calls = {register x 3 names (a, slot, fill) x 3 classes (K0; K1 and K1b = two class objects with ONE _class_hash), unregister, get} "
-             "+ clear + all = 17 per registry. One registry, default / shorthand formatter x Library without / with mark_protected_tags (4 "
+        rule="Calls = {register x 3 names (a, slot, fill) x 3 classes (K0; K1 and K1b = two class objects with ONE import path), unregister, get} "
+             "+ clear + all = 17 per registry. The 3 classes of a configuration are one of 3 FAMILIES (spread over the configurations of every "
+             "group; mixed in the random histories): direct subclasses of Component / siblings under a common base component / a chain (base, "
+             "its child K0, K0's children K1, K1b). Distinct import paths are distinct classes for the oracle and the model whatever the "
+             "inheritance (AlreadyRegistered expected), and `_class_hash` is checked directly to be equal exactly for equal import paths over all "
+             "11 generated classes (c15-class-identity). One registry, default / shorthand formatter x Library without / with mark_protected_tags (4 "
              "configurations): (i) ALL histories of length %d (17^%d each; every shorter history is an observed prefix); (ii) length %d, %s: ONE history "
              "per ORBIT of the group G (order 4) generated by the renamings slot<->fill (both pre-existing tags of the Library, both protected or "
              "both not, treated alike by both formatters - checked per configuration) and K1<->K1b: statement and configuration are "
@@ -1258,6 +1329,10 @@ def replay(path):
     r = json.load(open(path))
     print(json.dumps(r, indent=1)[:3000])
     case = r.get("case", {})
+    if case.get("kind") == "class-identity":
+        cif = class_identity_failures()
+        print("\n".join(cif) or "_class_hash identifies every generated class with its import path")
+        return 1 if cif else 0
     if case.get("kind") == "history":
         ls = [(b, tuple(p) if isinstance(p, list) else p) for b, p in case["libs"]]
         rs = [(li, tuple(f)) for li, f in case["regs"]]
